@@ -241,11 +241,14 @@ def run_all(repo, outdir, only=None):
     """ Regenerate every Generated/*.lean; returns {name: {ok, error, sha, facts}} """
     # load plug-in extractors
     import harness.extractors as ex
+    res = {}
     for m in pkgutil.iter_modules(ex.__path__):
-        importlib.import_module(f'harness.extractors.{m.name}')
+        try:
+            importlib.import_module(f'harness.extractors.{m.name}')
+        except Exception as e:  # a broken plug-in only affects the properties that need its generated files
+            res[f'__plugin__{m.name}'] = dict(ok=False, sha=None, facts=None, error=f'plug-in import failed: {type(e).__name__}: {e}')
     os.makedirs(outdir, exist_ok=True)
     src = Src(repo)
-    res = {}
     for name, (fn, files) in GENERATORS.items():
         if only and name not in only: continue
         try:
@@ -259,7 +262,7 @@ def run_all(repo, outdir, only=None):
             if not os.path.exists(path) or open(path).read() != text:
                 open(path, 'w').write(text)
             res[name] = dict(ok=True, sha=sha, facts=facts, error=None)
-        except (ExtractError, SyntaxError, OSError, KeyError, IndexError, AttributeError, ValueError) as e:
+        except Exception as e:  # fail closed: any problem is a broken tie for the properties depending on this file
             res[name] = dict(ok=False, sha=None, facts=None, error=f'{type(e).__name__}: {e}')
     return res
 
